@@ -2,6 +2,7 @@
 From Coq Require Import List ZArith Bool.
 Import ListNotations.
 Require Export BS.C01.Corr.
+Require Import BS.C12.Instance.
 Local Open Scope Z_scope.
 
 Inductive skind :=
@@ -31,4 +32,7 @@ Definition step_ok (s : step) : bool :=
 Definition ok (c : case) : bool := forallb step_ok c.
 
 Definition violations (cs : list case) : list nat := bad_indices ok cs.
-Definition mismatches (cs : list case) : list nat := violations cs.
+(* besides the verdict: every program of every step satisfies the hypothesis [wf] of the session
+   theorems instantiated with the reference semantics (C12_program_history_observes_reference) *)
+Definition mismatches (cs : list case) : list nat :=
+  bad_indices (fun c => ok c && forallb (fun s => wf (sprog s)) c) cs.
